@@ -138,7 +138,7 @@ EXPORT void fft64_vmp_apply_dft_to_dft_ref(const MODULE* module,                
 
       reim4_extract_1blk_from_contiguous_reim_ref(m, row_max, blk_i, (double*)extracted_blk, (double*)a_dft);
       // apply mat2cols
-      for (uint64_t col_i = 0; col_i < col_max - 1; col_i += 2) {
+      for (uint64_t col_i = 0; col_i + 1 < col_max; col_i += 2) {
         uint64_t col_offset = col_i * (8 * nrows);
         reim4_vec_mat2cols_product_ref(row_max, mat2cols_output, extracted_blk, mat_blk_start + col_offset);
 
